@@ -204,7 +204,8 @@ def matcher_features(fb, f):
                 steps.append((n['loc'][1], n['loc'][2], 'strip'))
         if n['k'] == 'IfStmt':
             c = strip(n['c'][0])
-            if c['k'] == 'BinaryOperator' and c.get('op') == '>' and all(any(x.get('callee', {}).get('q', '').endswith('::size') for x in sub(side)) for side in c['c']):
+            # `if (desc.size() > name.size()) skip` and `if (desc.size() <= name.size()) { compare }` are the same guard
+            if c['k'] == 'BinaryOperator' and c.get('op') in ('>', '<=', '<', '>=') and all(any(x.get('callee', {}).get('q', '').endswith('::size') for x in sub(side)) for side in c['c']):
                 steps.append((n['loc'][1], n['loc'][2], 'length-guard'))
             if c['k'] == 'BinaryOperator' and c.get('op') == '==' and tab.const_of(c['c'][1]) == 0 and any(x.get('callee', {}).get('q', '').endswith('::size') for x in sub(c['c'][0])):
                 steps.append((n['loc'][1], n['loc'][2], 'empty-matches'))
@@ -286,11 +287,32 @@ def run(rep, tier):
     if calls:
         c = calls[0]
         # arguments: (descriptor parameter, event.name)
-        a0 = {s.get('ref', {}).get('name') for s in sub(c['c'][1])}
-        a1 = {s.get('ref', {}).get('name') for s in sub(c['c'][2])}
-        okm = 'eventDesc' in a0 and 'name' in a1 and any(s['k'] == 'ReturnStmt' for s in ism.walk())
+        from .. import path as pathm
+        defs_m = pathm.local_defs(ism)
+
+        def names_of(e, depth=0):
+            out = set()
+            for s in sub(e):
+                nm = s.get('ref', {}).get('name')
+                if nm:
+                    out.add(nm)
+                if s['k'] == 'DeclRefExpr' and s.get('ref', {}).get('lid') in defs_m and depth < 3:
+                    for d_ in defs_m[s['ref']['lid']]:
+                        out |= names_of(d_, depth + 1)
+            return out
+        a0, a1 = names_of(c['c'][1]), names_of(c['c'][2])
+        params = [p_['name'] for p_ in ism.d.get('params', [])]
+        okm = bool(params) and any(p_ in a0 for p_ in params[1:] or params) and 'name' in a1
         ret = [s for s in ism.walk() if s['k'] == 'ReturnStmt']
-        okm = okm and len(ret) == 1 and any(x is c for x in sub(ret[0]))
+        direct = len(ret) == 1 and any(x is c for x in sub(ret[0]))
+        # `const bool matched = nameMatch(..); return matched;`
+        via_local = False
+        if len(ret) == 1 and ret[0].get('c'):
+            r0 = strip(ret[0]['c'][0])
+            if r0 is not None and r0['k'] == 'DeclRefExpr' and r0.get('ref', {}).get('lid') in defs_m:
+                ds = defs_m[r0['ref']['lid']]
+                via_local = len(ds) == 1 and strip(ds[0]) is not None and (strip(ds[0]) is c or strip(ds[0]).get('id') == c['id'])
+        okm = okm and (direct or via_local)
     rep.check(okm, 'R12.1', 'InterpreterImpl::isMatched', ism.where(), 'isMatched returns nameMatch(descriptor, event.name) unmodified')
     for q in ('uscxml::Breakpoint::matches', 'uscxml::InterpreterIssue::forInterpreter'):
         if fb.fn(q, required=False):
@@ -370,9 +392,16 @@ def run(rep, tier):
             loops = [a for a in f.ancestors(n) if a['k'] in ('ForStmt', 'CXXForRangeStmt', 'WhileStmt')]
             fn_src = ' '.join(fb.text(l)[:0] for l in loops)
             from_event = False
+            from .. import path as pathm2
+            defs_f = pathm2.local_defs(f)
             for s in f.walk():
-                if s.get('callee', {}).get('q') == 'uscxml::tokenize' and any(x.get('ref', {}).get('name') == 'kXMLCharEvent' for x in sub(s)):
-                    from_event = True
+                if s.get('callee', {}).get('q') == 'uscxml::tokenize':
+                    if any(x.get('ref', {}).get('name') == 'kXMLCharEvent' for x in sub(s)):
+                        from_event = True
+                    for x in sub(s):
+                        if x['k'] == 'DeclRefExpr' and x.get('ref', {}).get('lid') in defs_f and any(
+                                y.get('ref', {}).get('name') == 'kXMLCharEvent' for d_ in defs_f[x['ref']['lid']] for y in sub(d_)):
+                            from_event = True
             if not from_event or not loops:
                 continue
             sites += 1
